@@ -183,6 +183,19 @@ CLAIMS = {
               "published scalars are summed commutatively."),
         technique="structured-listing extraction + ordered effect rules + exhaustive predicate decision tables + sibling agreement",
         design_ref="§4 C09"),
+    "C04": dict(
+        category="other",
+        text=("Decides the factor flow and sibling agreement, not the cryptographic outcome: in Transaction::blind the skip and count predicates "
+              "are complementary (truth tables), unselected outputs enter the balance with zero factors, each non-last selected output with "
+              "exactly the (abf, vbf) its blinding call returned (also the factors reported and the output stored), the last selected output is "
+              "solved by ValueBlindingFactor::last over the caller's inputs and all other outputs; constructors draw each random factor once and "
+              "report the ones they used; blinder, unblinder and verifier give the range proof the same script bytes and asset generator; "
+              "range-proof message layout is identical in both directions and unblind returns the rewound value/blinder and the checked message; "
+              "sender and receiver derive the shared secret with the same function; verify_tx_amt_proofs reaches Ok only through the balance "
+              "equation over inputs(+issuance pseudo-inputs) and outputs with a range-proof check per confidential value and a surjection check "
+              "per confidential asset. NOT decided: that blinding succeeds, that proofs verify, that commitments balance."),
+        technique="structured-listing extraction + term-level factor-flow rules + predicate truth tables + must-pass-through (dominance)",
+        design_ref="§4 C04"),
     "C17": dict(
         category="proof",
         text=("Proof by finite computation for the data-part clause: from the generator constants rustc evaluated out of /repo, all 31*N "
